@@ -12,7 +12,7 @@ env = dict(os.environ, GOFLAGS="-mod=mod", GOPROXY="off")
 env.pop("QUEUE_ACTIONS_METRICS", None)
 env.pop("GOSUMDB", None); env.pop("GOTOOLCHAIN", None)
 def sh(cmd, cwd=wt, timeout=1500):
-    p = subprocess.run(cmd, shell=True, cwd=cwd, env=env, stdout=subprocess.PIPE, stderr=subprocess.STDOUT, text=True, timeout=timeout)
+    p = subprocess.run(["bash","-c",cmd], cwd=cwd, env=env, stdout=subprocess.PIPE, stderr=subprocess.STDOUT, text=True, timeout=timeout)
     return p.returncode, p.stdout
 def clean():
     sh("git checkout -- . && git clean -fdq -e _seed")
@@ -30,8 +30,8 @@ placed = []
 pkgs = set()
 for f in sorted(glob.glob(seed + "/demo/**/*", recursive=True)):
     if os.path.isdir(f): continue
-    first = open(f, errors="replace").readline()
-    m = re.search(r"place at:\s*(\S+)", first)
+    head = "".join(open(f, errors="replace").readlines()[:3])
+    m = re.search(r"place at:\s*(\S+)", head)
     if not m:
         print("no 'place at' in", f); continue
     dest = os.path.join(wt, m.group(1))
@@ -44,7 +44,7 @@ def run_demo():
     # program / script demo: look for run instructions
     for p_ in placed:
         if p_.endswith(".sh"):
-            return sh("bash %s 2>&1 | tail -40" % p_)
+            return sh("bash %s %s 2>&1 | tail -40; exit ${PIPESTATUS[0]}" % (p_, wt), timeout=600)
         if p_.endswith("main.go"):
             return sh("go run ./%s 2>&1 | tail -40" % os.path.dirname(p_))
     return 99, "no runnable demo"
@@ -52,12 +52,12 @@ rc1, out1 = run_demo()
 if "HistogramObserve" in out1 or "nil pointer" in out1:
     env["QUEUE_ACTIONS_METRICS"] = "no"
     rc1, out1 = run_demo()
-fails_changed = ("FAIL" in out1) or (rc1 != 0 and "ok " not in out1)
+fails_changed = ("FAIL" in out1) or (rc1 != 0 and "ok \t" not in out1)
 log["demo_on_changed_tree"] = out1[-3000:]
 # revert only the product change
 sh("git apply -R %s/patch.diff" % seed)
 rc2, out2 = run_demo()
-passes_pristine = ("FAIL" not in out2) and ("ok " in out2 or rc2 == 0)
+passes_pristine = ("FAIL" not in out2) and ("ok \t" in out2 or rc2 == 0)
 log["demo_on_pristine_tree"] = out2[-1500:]
 clean()
 confirmed = suite_ok and fails_changed and passes_pristine
